@@ -197,6 +197,7 @@ Definition wrap (m : mode) (T : ty) (t : thunk) : thunk :=
 Fixpoint wrap_fields (m : mode) (r : rows) (fs : list (string * thunk)) : option (list (string * thunk)) :=
   match r with
   | RNil => Some []
+  | RVar _ => None
   | RCons f T r' =>
       match assoc f fs, wrap_fields m r' fs with
       | Some t, Some rest => Some ((f, wrap m T t) :: rest)
@@ -208,8 +209,8 @@ Definition cast_whnf (m : mode) (T : ty) (v : whnf) : outcome whnf :=
   match T, v with
   | TDyn, _ => Ok v
   | TNum, VNum _ | TStr, VStr _ | TBool, VBool _ => Ok v
-  | TEnum e, VTag t => match erows_lookup t e with Some None => Ok v | _ => Err EBlame end
-  | TEnum e, VVariant t th => match erows_lookup t e with
+  | TEnum e, VTag t => match erows_lookup t false e with Some None => Ok v | _ => Err EBlame end
+  | TEnum e, VVariant t th => match erows_lookup t true e with
                               | Some (Some T') => Ok (VVariant t (wrap m T' th))
                               | _ => Err EBlame
                               end
@@ -220,7 +221,7 @@ Definition cast_whnf (m : mode) (T : ty) (v : whnf) : outcome whnf :=
       then match wrap_fields m r fs with Some fs' => Ok (VRec fs') | None => Err EBlame end
       else Err EBlame
   | TDict T', VRec fs => Ok (VRec (map (fun ft => (fst ft, wrap m T' (snd ft))) fs))
-  | TFun _ _, _ | TVar _, _ | TForall _, _ => Err EUnmodelled
+  | TFun _ _, _ | TVar _, _ | TForall _, _ | TForallR _, _ => Err EUnmodelled
   | _, _ => Err EBlame
   end.
 
